@@ -46,3 +46,21 @@ Section AnySchedule.
     repeat split; apply handoff_never_missed; assumption.
   Qed.
 End AnySchedule.
+
+(* ---- progress: the locks the repairs added cannot deadlock (within the modelled locks) ---- *)
+From NSQV Require Import proofs.HandoffProgress.
+
+Lemma src_closers_release :
+  released src_topic_close false false = true /\ released src_topic_delete false false = true /\
+  released src_channel_close false false = true /\ released src_channel_delete false false = true /\
+  released src_channel_empty false false = true.
+Proof. repeat split; vm_compute; reflexivity. Qed.
+
+Theorem source_closers_cannot_deadlock ks sched prog :
+  In prog [src_topic_close; src_topic_delete; src_channel_close; src_channel_delete; src_channel_empty] ->
+  exists more, finished (run (init ks prog) (sched ++ more)) = true.
+Proof.
+  intros Hin. destruct src_closers_in_order as (O1 & O2 & O3 & O4 & O5).
+  destruct src_closers_release as (R1 & R2 & R3 & R4 & R5).
+  cbn in Hin. destruct Hin as [<-|[<-|[<-|[<-|[<-|[]]]]]]; apply handoff_no_deadlock; assumption.
+Qed.
